@@ -34,6 +34,11 @@ static uint8_t pay(size_t opi, size_t j) { return (uint8_t)(0xc3 ^ stream_octet(
 struct LenpHarness : Harness {
     const char *name() const override { return "lenpsim"; }
     std::vector<std::string> props() const override { return {"C13"}; }
+    std::vector<std::string> probes(const std::string &) const override {
+        return {"varint_prefix_1", "varint_prefix_2", "varint_prefix_3plus", "buffer_with_offset_and_free_space", "chunk_list_with_empty_chunk", "chunk_list_active_nonzero",
+                "frame_split_inside_prefix", "destination_one_octet_too_small", "over_maximum_refused", "sink_error_mid_frame", "buffer_n_less_than_rest",
+                "n_beyond_unread_refused", "fragmented_decode", "append_behind_existing_content", "multi_frame_stream_fragmented"};
+    }
     uint64_t runs(const std::string &, const Tier &t) const override { return t.thorough() ? 12000000 : 1200000; }
 
     Json describe(const std::string &) const override {
@@ -398,10 +403,5 @@ struct LenpHarness : Harness {
 
 int main(int argc, char **argv) {
     LenpHarness h;
-    for (const char *p : {"probe.varint_prefix_1", "probe.varint_prefix_2", "probe.varint_prefix_3plus", "probe.buffer_with_offset_and_free_space",
-                          "probe.chunk_list_with_empty_chunk", "probe.chunk_list_active_nonzero", "probe.frame_split_inside_prefix",
-                          "probe.destination_one_octet_too_small", "probe.over_maximum_refused", "probe.sink_error_mid_frame", "probe.buffer_n_less_than_rest",
-                          "probe.n_beyond_unread_refused", "probe.fragmented_decode", "probe.append_behind_existing_content", "probe.multi_frame_stream_fragmented"})
-        (void)counters().id(p);
     return sim_main(argc, argv, h);
 }
